@@ -69,7 +69,9 @@ def run(ctx):
                   ok_msg=f"in-loop verdicts {sorted(vals)}, exhausted verdict {exhausted}",
                   bad_msg=f"the loop over attributes returns the accepting verdict NodeAction::{exhausted} from inside the loop (line {bad[0][1] if bad else '?'}): "
                           f"attributes after the first one without a scheme list are never checked")
-    ctx.floor("attribute loops in node_action", n_loops, 2)
+    # a scan written as attrs.iter().any(..) / .all(..) has no loop body to return from (the adaptor owns the iteration): counted, nothing to check
+    n_adapt = sum(1 for _, c in M.calls(body) if M.callee_name(c).rsplit("::", 1)[-1] in ("any", "all") and "Attribute" in " ".join(c.get("fnargs") or []))
+    ctx.floor("attribute scans in node_action (loops + any/all)", n_loops + n_adapt, 2)
 
     # ---- node kinds / clean_node dispatch ---------------------------------------------------------------------------
     ctx.rule("C14.nodes", "node_action: Text -> None, non-element non-text -> Remove; clean_node: children are visited unless the verdict is Remove, with depth + 1; "
@@ -186,11 +188,20 @@ def run(ctx):
                   bad_msg=f"class tokens are produced by {[n.rsplit('::', 1)[-1] for n in splitters]}: a value such as `language-x<TAB>evil` is one token for the "
                           f"filter but two classes for an HTML parser, so a class outside the allow-list survives")
         ctx.check(any(n.endswith("::join") for n in names), "C14.classes", "C14.classes:join", w.where(main), bad_msg="kept classes are not re-joined with join(..)")
-        dexc = D.Dex(w.lookup, adt_discr=w.adt_discr, unroll=1)
+        def clean_helper(n):
+            rest = n[len(CL):] if n.startswith(CL) else None
+            return rest is not None and "::" not in rest and "<" not in rest and "{" not in rest
+        dexc = D.Dex(w.lookup, adt_discr=w.adt_discr, unroll=1, inline=clean_helper)
         def nested(gp):
             return [h for h in w.all_fns() if h["path"].startswith(gp + "::{closure#") and "body" in h]
-        def calls_matches(h):
-            return any(M.callee_name(c).endswith("::matches") and "WildMatch" in M.callee_name(c) for _, c in M.calls(h["body"]))
+        def calls_matches(h, depth=0):
+            for _, c in M.calls(h["body"]):
+                n = M.callee_name(c)
+                if n.endswith("::matches") and "WildMatch" in n:
+                    return True
+                if depth < 2 and clean_helper(n) and w.lookup(n) is not None and "body" in w.lookup(n) and calls_matches(w.lookup(n), depth + 1):
+                    return True
+            return False
         subs = [fn for fn in w.all_fns() if fn["path"].startswith(main["path"] + "::{closure#") and fn["path"].count("{closure") == main["path"].count("{closure") + 1
                 and "body" in fn and (calls_matches(fn) or any(calls_matches(h) for h in nested(fn["path"])))]
         kinds = {}
@@ -202,7 +213,7 @@ def run(ctx):
             okk = bool(rets) and all(p.kind in ("ret", "loop") for p in ps)
             for p in rets:
                 r = D.show(p.ret)
-                if p.ret is not None and p.ret[0] in ("atom", "natom") and "Iterator::any(" in r:
+                if p.ret is not None and p.ret[0] in ("atom", "natom", "sym") and r.lstrip("!(").startswith("Iterator::any("):
                     # iterator shape: [!]patterns.any(|pattern| WildMatch::new(pattern).matches(class))
                     m = re.search(r"closure\[([^\]]+)\]\{_ref__class=class\}\)\)?$", r)
                     inner = w.lookup(m.group(1)) if m else None
@@ -210,7 +221,7 @@ def run(ctx):
                     if inner is not None and "body" in inner:
                         ips = dexc.paths(inner, [D.sym("env"), D.sym("pattern")])
                         iok = len(ips) == 1 and D.show(ips[0].ret) == "WildMatchPattern::matches(WildMatchPattern::new(pattern), env._ref__class)"
-                    positive = p.ret[0] == "atom"
+                    positive = p.ret[0] != "natom"
                     okk = okk and iok and ((kind == "allow" and positive) or (kind == "remove" and not positive)) and \
                         (("remove_classes" in r) == (kind == "remove"))
                     continue
